@@ -115,6 +115,14 @@ class Partial:
         self.callee, self.args, self.kwargs = callee, tuple(args), dict(kwargs)
 
 
+def _memo_identity(*a, **k):
+    """functools.lru_cache / cache in call form: memoisation is the identity for the evaluator (results are recomputed).
+    lru_cache(maxsize=..)(f) and lru_cache(f) both give f; the object keeps a no-op cache_clear through the evaluator's getattr."""
+    if len(a) == 1 and not k and not isinstance(a[0], (int, type(None))):
+        return a[0]
+    return lambda f: f
+
+
 def _external_table():
     import functools
     import itertools
@@ -136,6 +144,7 @@ def _external_table():
                                                                      'gcd', 'fmod', 'modf', 'frexp', 'ldexp')},
         **{f'unicodedata.{n_}': getattr(__import__('unicodedata'), n_) for n_ in ('name', 'east_asian_width', 'normalize', 'combining', 'decimal', 'digit', 'numeric',
                                                                                    'mirrored', 'lookup')},
+        'functools.lru_cache': _memo_identity, 'functools.cache': _memo_identity,
         'textwrap.dedent': __import__('textwrap').dedent, 'textwrap.indent': __import__('textwrap').indent,
     }
 
@@ -146,6 +155,7 @@ HIGHER_ORDER = {'itertools.takewhile', 'itertools.dropwhile', 'itertools.accumul
 
 
 _IS_GENERATOR: dict = {}
+_FN_LOCALS: dict = {}
 _MINI_ONLY = {ast.UnaryOp, ast.BoolOp, ast.IfExp, ast.Compare}
 _UNPARSED: dict = {}
 
@@ -243,6 +253,9 @@ class Interp(MiniEval):
                     self.shared[ck] = norm(v) if not isinstance(v, set) else set(v)
                     if self.shared[ck] is v:
                         self.shared[ck] = type(v)(v)
+                    node_ = self.inv.folder.env_nodes[mod.name].get(name)
+                    if node_ is not None:
+                        self._complete_module_value(mod, name, node_, Interp(self.ctx, mod.name, None, {}, self.stubs, self.depth + 1, self.shared))
                 return self.shared[ck]
             return norm(v)
         except Exception:  # noqa: BLE001
@@ -266,31 +279,35 @@ class Interp(MiniEval):
             if ck not in self.shared:
                 sub = Interp(self.ctx, mod.name, None, {}, self.stubs, self.depth + 1, self.shared)
                 self.shared[ck] = sub.ev(node)
-                # module-level statements after the definition that complete the value in place (TABLE[k] = v, TABLE.update(...))
-                after = False
-                for st in mod.tree.body:
-                    if not after:
-                        after = any(x is node for x in ast.walk(st))
-                        continue
-
-                    def mutates(x):
-                        root = x
-                        while isinstance(root, (ast.Subscript, ast.Attribute)):
-                            root = root.value
-                        return root is not x and isinstance(root, ast.Name) and root.id == name
-                    hit = False
-                    for x in ast.walk(st) if not isinstance(st, (ast.FunctionDef, ast.ClassDef)) else []:
-                        if isinstance(x, (ast.Assign, ast.AugAssign, ast.Delete)):
-                            ts = x.targets if isinstance(x, (ast.Assign, ast.Delete)) else [x.target]
-                            hit = hit or any(mutates(t) for t in ts)
-                        elif isinstance(x, ast.Expr) and isinstance(x.value, ast.Call) and isinstance(x.value.func, ast.Attribute) \
-                                and isinstance(x.value.func.value, ast.Name) and x.value.func.value.id == name \
-                                and x.value.func.attr in ('update', 'append', 'extend', 'setdefault', 'pop', 'insert', 'remove', 'add', 'clear'):
-                            hit = True
-                    if hit:
-                        sub.stmt(st)
+                self._complete_module_value(mod, name, node, sub)
             return self.shared[ck]
         raise KeyError(name)
+
+    def _complete_module_value(self, mod, name, node, sub):
+        """Run the module-level statements after the definition of `name` that complete the value in place (TABLE[k] = v,
+        TABLE.update(...), also inside a module-level loop)."""
+        after = False
+        for st in mod.tree.body:
+            if not after:
+                after = any(x is node for x in ast.walk(st))
+                continue
+
+            def mutates(x):
+                root = x
+                while isinstance(root, (ast.Subscript, ast.Attribute)):
+                    root = root.value
+                return root is not x and isinstance(root, ast.Name) and root.id == name
+            hit = False
+            for x in ast.walk(st) if not isinstance(st, (ast.FunctionDef, ast.ClassDef)) else []:
+                if isinstance(x, (ast.Assign, ast.AugAssign, ast.Delete)):
+                    ts = x.targets if isinstance(x, (ast.Assign, ast.Delete)) else [x.target]
+                    hit = hit or any(mutates(t) for t in ts)
+                elif isinstance(x, ast.Expr) and isinstance(x.value, ast.Call) and isinstance(x.value.func, ast.Attribute) \
+                        and isinstance(x.value.func.value, ast.Name) and x.value.func.value.id == name \
+                        and x.value.func.attr in ('update', 'append', 'extend', 'setdefault', 'pop', 'insert', 'remove', 'add', 'clear'):
+                    hit = True
+            if hit:
+                sub.stmt(st)
 
     def ev(self, e):
         t = type(e)
@@ -305,6 +322,8 @@ class Interp(MiniEval):
         if t is ast.Name:
             if e.id in self.env:
                 return self.env[e.id]
+            if e.id in getattr(self, 'fn_locals', ()) and e.id not in getattr(self, 'globals_', ()) and e.id not in getattr(self, 'nonlocals', ()):
+                raise Raised('UnboundLocalError')          # a local of this function that no path has assigned yet
             if e.id in self.stubs:
                 return self.stubs[e.id]
             if getattr(self, 'class_scope', False) and self.cls:
@@ -480,7 +499,7 @@ class Interp(MiniEval):
                             raise Unsupported('re.escape of an abstract value')
                         return _re.escape(x)
                     return escape_
-                if attr in ('match', 'search', 'fullmatch', 'finditer', 'findall', 'split', 'sub') and self.shared.get('regex_engine'):
+                if attr in ('match', 'search', 'fullmatch', 'finditer', 'findall', 'split', 'sub') and (self.shared.get('regex_engine') or f're.Pattern.{attr}' in self.stubs):
                     # re.match(pattern, text, flags) ...: compiled on the spot, applied by the analyser's own matcher
                     def direct_(pattern, *a, _attr=attr, **kw):
                         if not isinstance(pattern, str):
@@ -1090,6 +1109,23 @@ class Interp(MiniEval):
             else:
                 args = [first] + args
         sub.bind_params(fn.args, args, dict(kwargs))
+        loc = _FN_LOCALS.get(id(fn))
+        if loc is None:
+            from .srcmodel import walk_no_nested as _wnn
+            loc = set()
+            for n_ in _wnn(fn):
+                if isinstance(n_, ast.Name) and isinstance(n_.ctx, (ast.Store, ast.Del)):
+                    loc.add(n_.id)
+                elif isinstance(n_, (ast.Global, ast.Nonlocal)):
+                    loc -= set(n_.names)
+            for n_ in _wnn(fn):
+                if isinstance(n_, (ast.Global, ast.Nonlocal)):
+                    loc -= set(n_.names)
+                elif isinstance(n_, (ast.ListComp, ast.SetComp, ast.DictComp, ast.GeneratorExp)):
+                    for g_ in n_.generators:
+                        loc -= {x.id for x in ast.walk(g_.target) if isinstance(x, ast.Name)}      # comprehension variables are not locals of fn
+            loc = _FN_LOCALS[id(fn)] = frozenset(loc)
+        sub.fn_locals = loc
         isgen = _IS_GENERATOR.get(id(fn))
         if isgen is None:
             from .srcmodel import walk_no_nested
